@@ -59,7 +59,7 @@ def sched_jobs(tier, seed, gen=None, selections=False, faults=False, fault_rate=
         g2["setup_rate"] = 0.0  # the DFS re-runs ONE DAG object many times: setup state would carry over between schedules
         for _ in range(n_dfs):
             jobs.append(dict(kind="sched_dfs", n_shapes=dfs_shapes if not dfs_faults else max(2, dfs_shapes // 4), limit=dfs_limit, gen=g2,
-                             faults=dfs_faults, flavour=flavour, **_seeds(seed, k)))
+                             faults=dfs_faults, flavour=flavour, selections=selections, **_seeds(seed, k)))
             k += 1
     return jobs
 
@@ -190,6 +190,9 @@ def c09(tier, seed):
     jobs += sched_jobs(tier, seed + 11, gen=dict(nmax=5, mc_max=2, seq_rate=0.4), stress=False, dfs=True, dfs_faults=True, scale=0.2)
     # executions started from inside node functions (also setup() inside a setup node): must terminate
     jobs += [dict(kind="imbricated", n_cases=(60 if tier == "quick" else 600), op_watchdog_s=20, **_seeds(seed + 80, k)) for k in range(1 if tier == "quick" else 4)]
+    # large DAGs (hundreds of nodes: chains, fans, grids, trees) terminate within the same step bound
+    jobs += [dict(kind="scale", n_cases=(2 if tier == "quick" else 8), nmin=150, nmax=(400 if tier == "quick" else 900), **_seeds(seed + 85, k))
+             for k in range(2 if tier == "quick" else 8)]
     # "never returns normally while a selected active node has not run" also for executors that are run again after a failure
     jobs += [dict(kind="hist15", pid="C09", n_histories=(40 if tier == "quick" else 400), only=["executor_rerun_used_partially_consumed_graph"],
                   **_seeds(seed + 70, k)) for k in range(2 if tier == "quick" else 8)]
